@@ -188,7 +188,7 @@ def tla_unquote(s):
 
 
 SCRIPT_RE = re.compile(r'^<<"SCRIPT", "(.*)">>$')
-VERDICT_RE = re.compile(r'^<<"VERDICT", (-?\d+), (\d+), "([^"]*)", "(.*)">>$')
+VERDICT_RE = re.compile(r'^<<\s*"VERDICT",\s*(-?\d+),\s*(\d+),\s*"([^"]*)",\s*"(.*?)"\s*>>$', re.M | re.S)
 
 
 def scripts_from_tlc(stdout):
@@ -386,10 +386,8 @@ def run_family(fam, scratch, prefixes, allow_incomplete=False):
         if not r["ok"]:
             raise MachineryError(f"trace validation ({fam.trace_module}) did not complete:\n" + r["stdout"][-3000:])
         verdicts = {}
-        for line in r["stdout"].splitlines():
-            m = VERDICT_RE.match(line)
-            if m:
-                verdicts[int(m.group(1))] = (int(m.group(2)), m.group(3), m.group(4))
+        for m in VERDICT_RE.finditer(r["stdout"]):
+            verdicts[int(m.group(1))] = (int(m.group(2)), m.group(3), m.group(4)[:2000])
         if len(verdicts) != nt and not allow_incomplete:
             # a trace that the specification could not consume completely (an action guard refused an
             # event) produces no verdict: that is a defect of the generator/harness, never a violation
